@@ -353,6 +353,11 @@ pub struct SpatialTrackDistances {
 impl SpatialTrackDistances {
 	#[must_use]
 	pub(crate) fn relative_distance(&self, distance: f32) -> f32 {
+		// a range without extent is a step from full volume to silence
+		// (clamp panics if min > max, and (d - min) / (max - min) is 0 / 0 if they're equal)
+		if self.max_distance <= self.min_distance {
+			return if distance < self.min_distance { 0.0 } else { 1.0 };
+		}
 		let distance = distance.clamp(self.min_distance, self.max_distance);
 		(distance - self.min_distance) / (self.max_distance - self.min_distance)
 	}
